@@ -212,6 +212,50 @@ Proof.
   apply (mring_step obs fl fl' (@reset)); [reflexivity | exact Er | reflexivity].
 Qed.
 
+(* The same three facts for every observation of the handles at once: the symbolic execution
+   below does not have to know which observation (frames / pixel grids) a loop is used with. *)
+Lemma Move_all fl lo n w : fl_on fl lo n ->
+  exists fl', FrameLoop_Move dext fl w = Ok (fl', lo + FrameLoop_currentIndex fl') w /\
+              fl_on fl' lo n /\ forall B (obs : Z -> B), mring obs fl' = move (mring obs fl).
+Proof.
+  intros H. destruct (tie_Move dext fl w 0 (proj1 H)) as (fl' & E & Er & _ & Hwf).
+  rewrite after_lock in E.
+  assert (H' : fl_on fl' lo n) by (apply (fl_on_step fl fl' lo n (@move Z) H Hwf Er); reflexivity).
+  exists fl'. split; [|split].
+  - rewrite E. rewrite (fl_current fl' lo n 0 H'). reflexivity.
+  - exact H'.
+  - intros B obs. apply (mring_step obs fl fl' (@move)); [reflexivity | exact Er | reflexivity].
+Qed.
+
+Lemma SetAsOldest_all fl lo n w : fl_on fl lo n ->
+  exists fl' r, FrameLoop_SetAsOldest dext fl w = Ok (fl', r) w /\
+              fl_on fl' lo n /\ forall B (obs : Z -> B), mring obs fl' = set_as_oldest (mring obs fl).
+Proof.
+  intros H. destruct (tie_SetAsOldest dext fl w 0 (proj1 H)) as (fl' & E & Er & _ & Hwf).
+  assert (H' : fl_on fl' lo n) by (apply (fl_on_step fl fl' lo n (@set_as_oldest Z) H Hwf Er); reflexivity).
+  exists fl'. eexists. split; [exact E|]. split; [exact H'|].
+  intros B obs. apply (mring_step obs fl fl' (@set_as_oldest)); [reflexivity | exact Er | reflexivity].
+Qed.
+
+Lemma Reset_all fl lo n w : fl_on fl lo n ->
+  exists fl', FrameLoop_Reset dext fl w = Ok (fl', tt) w /\
+              fl_on fl' lo n /\ forall B (obs : Z -> B), mring obs fl' = reset (mring obs fl).
+Proof.
+  intros H. destruct (tie_Reset dext fl w) as (fl' & E & Er & _).
+  pose proof (Reset_wf dext fl w fl' tt w (proj1 H) E) as Hwf.
+  assert (H' : fl_on fl' lo n) by (apply (fl_on_step fl fl' lo n (@reset Z) H Hwf Er); reflexivity).
+  exists fl'. split; [exact E|]. split; [exact H'|].
+  intros B obs. apply (mring_step obs fl fl' (@reset)); [reflexivity | exact Er | reflexivity].
+Qed.
+
+Lemma Current_on fl lo n w : fl_on fl lo n ->
+  FrameLoop_Current dext fl w = Ok (fl, lo + FrameLoop_currentIndex fl) w.
+Proof. intros H. rewrite (tie_Current dext fl w 0 (proj1 H)), (fl_current fl lo n 0 H). reflexivity. Qed.
+
+Lemma Oldest_on fl lo n w : fl_on fl lo n ->
+  FrameLoop_Oldest dext fl w = Ok (fl, lo + oldest_index (ring_of fl)) w.
+Proof. intros H. rewrite (tie_Oldest dext fl w 0 (proj1 H)), (fl_oldest fl lo n 0 H). reflexivity. Qed.
+
 (* ====================================================================================
    The model's Detect in two steps: background / threshold, then pixelsChanged
    ==================================================================================== *)
@@ -277,28 +321,6 @@ Record sim (c : dcfg) (d : motionDetector) (w : dworld) (s : dstate) : Prop := {
 }.
 
 (* ---------- setters ---------- *)
-Ltac md_simpl :=
-  unfold motionDetector_set_flooredFrames, motionDetector_set_diffFrames, motionDetector_set_firstDiff,
-    motionDetector_set_tempThresh, motionDetector_set_count, motionDetector_set_backgroundFrames,
-    motionDetector_set_affectedByFCC in *;
-  cbn [motionDetector_flooredFrames motionDetector_diffFrames motionDetector_firstDiff motionDetector_dynamicThresh
-       motionDetector_useOneDiff motionDetector_tempThresh motionDetector_tempThreshMax motionDetector_tempThreshMin
-       motionDetector_deltaThresh motionDetector_countThresh motionDetector_warmerOnly motionDetector_start
-       motionDetector_rowStop motionDetector_columnStop motionDetector_count motionDetector_background
-       motionDetector_backgroundFrames motionDetector_previewFrames motionDetector_numPixels
-       motionDetector_affectedByFCC motionDetector_framesHz] in *.
-
-(* the same on the goal only, keeping set_count folded *)
-Ltac md_simpl_goal :=
-  unfold motionDetector_set_flooredFrames, motionDetector_set_diffFrames, motionDetector_set_firstDiff,
-    motionDetector_set_tempThresh, motionDetector_set_backgroundFrames, motionDetector_set_affectedByFCC;
-  cbn [motionDetector_flooredFrames motionDetector_diffFrames motionDetector_firstDiff motionDetector_dynamicThresh
-       motionDetector_useOneDiff motionDetector_tempThresh motionDetector_tempThreshMax motionDetector_tempThreshMin
-       motionDetector_deltaThresh motionDetector_countThresh motionDetector_warmerOnly motionDetector_start
-       motionDetector_rowStop motionDetector_columnStop motionDetector_count motionDetector_background
-       motionDetector_backgroundFrames motionDetector_previewFrames motionDetector_numPixels
-       motionDetector_affectedByFCC motionDetector_framesHz].
-
 Lemma set_floored_id d : motionDetector_set_flooredFrames (motionDetector_flooredFrames d) d = d.
 Proof. destruct d; reflexivity. Qed.
 Lemma set_diff_id d : motionDetector_set_diffFrames (motionDetector_diffFrames d) d = d.
@@ -347,6 +369,130 @@ Lemma if_bind {W A B} (b : bool) (m1 m2 : M W A) (K : A -> M W B) w :
 Proof. destruct b; reflexivity. Qed.
 
 (* ====================================================================================
+   Order-independent symbolic execution of the translated code
+
+   The generated file changes shape under harmless edits of the Go source (two independent
+   statements or calls swapped, a local introduced, [if !c {A} else {B}] for [if c {B} else {A}]).
+   The proofs below therefore never name "the next call": [lands (prog w) P] says that the
+   program, run from the world w, ends normally in a result and world satisfying P; one step
+   looks at whatever stands at the head of prog, finds the facts about its arguments among the
+   hypotheses by their statements, and runs it.  Conditions are decided by case analysis on the
+   first atom of whatever boolean expression the code tests, detector states are compared
+   field by field after all setters have been computed away.
+   ==================================================================================== *)
+Definition lands {W A} (o : outcome W A) (P : A -> W -> Prop) : Prop :=
+  exists a w', o = Ok a w' /\ P a w'.
+
+Lemma lands_ok {W A} (a : A) (w : W) (P : A -> W -> Prop) : P a w -> lands (Ok a w) P.
+Proof. intros H. exists a, w. split; [reflexivity | exact H]. Qed.
+
+Lemma lands_ret {W A} (a : A) (w : W) (P : A -> W -> Prop) : P a w -> lands (ret a w) P.
+Proof. apply lands_ok. Qed.
+
+(* [md_norm] (proofs/TieDetLoops.v): all setters computed away, whichever fields the code assigns *)
+Lemma md_eta d :
+  mkmotionDetector (motionDetector_flooredFrames d) (motionDetector_diffFrames d) (motionDetector_firstDiff d)
+    (motionDetector_dynamicThresh d) (motionDetector_useOneDiff d) (motionDetector_tempThresh d)
+    (motionDetector_tempThreshMax d) (motionDetector_tempThreshMin d) (motionDetector_deltaThresh d)
+    (motionDetector_countThresh d) (motionDetector_warmerOnly d) (motionDetector_start d)
+    (motionDetector_rowStop d) (motionDetector_columnStop d) (motionDetector_count d)
+    (motionDetector_background d) (motionDetector_backgroundFrames d) (motionDetector_previewFrames d)
+    (motionDetector_numPixels d) (motionDetector_affectedByFCC d) (motionDetector_framesHz d) = d.
+Proof. destruct d; reflexivity. Qed.
+
+Ltac head_simpl := cbv beta iota zeta; md_norm; rewrite ?md_eta.
+
+(* the configuration fields of a detector the code has assigned other fields of *)
+Ltac dconf_solve Hc :=
+  first [ exact Hc
+        | destruct Hc; split; md_norm; first [assumption | reflexivity | (symmetry; assumption)] ].
+
+(* what is known about the value of a boolean *)
+Ltac use_bool_eqns :=
+  repeat match goal with
+         | H : ?b = true |- context [?b] => lazymatch b with true => fail | false => fail | _ => rewrite H end
+         | H : ?b = false |- context [?b] => lazymatch b with true => fail | false => fail | _ => rewrite H end
+         end.
+
+(* ... and what follows from it, whichever side of an operator the known value stands on *)
+Ltac bool_simpl :=
+  use_bool_eqns; cbn [negb andb orb];
+  rewrite ?andb_false_r, ?andb_true_r, ?orb_false_r, ?orb_true_r; cbn [negb andb orb].
+
+Ltac bool_atom b :=
+  lazymatch b with
+  | negb ?x => bool_atom x
+  | andb ?x _ => bool_atom x
+  | orb ?x _ => bool_atom x
+  | _ => constr:(b)
+  end.
+
+(* the head of the program tests b: decide it, by cases on its first atom if need be *)
+Ltac split_cond b :=
+  lazymatch b with
+  | true => idtac
+  | false => idtac
+  | _ => let a := bool_atom b in let E := fresh "Ecase" in destruct a eqn:E
+  end;
+  cbn [negb andb orb]; rewrite ?orb_true_r, ?orb_false_r, ?andb_true_r, ?andb_false_r; cbn [negb]; cbv iota.
+
+(* the same after the condition (and nothing else in the goal) has been brought into the model's
+   vocabulary: [norm E] rewrites in the right-hand side of [E : bv = condition] *)
+Ltac decide_cond norm b :=
+  let bv := fresh "bv" in let Eb := fresh "Eb" in
+  remember b as bv eqn:Eb in |- *;
+  norm Eb; cbn [negb andb orb] in Eb;
+  repeat match type of Eb with
+         | context [?x] =>
+           match goal with
+           | H : x = true |- _ => rewrite H in Eb
+           | H : x = false |- _ => rewrite H in Eb
+           end
+         end;
+  cbn [negb andb orb] in Eb; subst bv;
+  lazymatch goal with
+  | |- lands ((if ?b' then _ else _) _) _ => split_cond b'
+  | |- lands (bind (if ?b' then _ else _) _ _) _ => split_cond b'
+  end.
+
+(* rewriting with the facts [forall B obs, mring obs fl' = op (mring obs fl)] the ring methods left behind *)
+Ltac ring_facts :=
+  repeat match goal with
+         | R : forall (B : Type) (obs : Z -> B), mring obs ?F = _ |- context [mring _ ?F] => rewrite R
+         end.
+
+(* One step.  [norm E] brings the condition in [E : _ = condition] into the vocabulary of the model
+   (proof-specific rewriting). *)
+Ltac step_generic norm :=
+  lazymatch goal with
+  | |- lands (bind (ret ?a) ?k ?w) _ => rewrite (bind_ret a k w)
+  | |- lands (bind (bind ?m ?k) ?K ?w) _ => rewrite (bind_assoc m k K w)
+  | |- lands (bind (call_ext dext _ _) _ _) _ => call1
+  | |- lands (bind (MotionDetector_fn_isAffectedByFFC dext ?h) ?k ?w) _ =>
+      rewrite (bind_ok _ k w _ _ (isAffectedByFFC_ok h w))
+  | |- lands (bind (motionDetector_setFloor dext _ _ _) _ _) _ => unfold motionDetector_setFloor
+  | |- lands (bind (FrameLoop_Current dext ?fl) ?k ?w) _ =>
+      lazymatch goal with H : fl_on fl ?lo ?n |- _ => rewrite (bind_ok _ k w _ _ (Current_on fl lo n w H)) end
+  | |- lands (bind (FrameLoop_Oldest dext ?fl) ?k ?w) _ =>
+      lazymatch goal with H : fl_on fl ?lo ?n |- _ => rewrite (bind_ok _ k w _ _ (Oldest_on fl lo n w H)) end
+  | |- lands (bind (FrameLoop_Move dext ?fl) ?k ?w) _ =>
+      lazymatch goal with H : fl_on fl ?lo ?n |- _ =>
+        let fl' := fresh "fl" in let E := fresh "E" in let H' := fresh "Hon" in let R := fresh "Rg" in
+        destruct (Move_all fl lo n w H) as (fl' & E & H' & R); rewrite (bind_ok _ k w _ _ E); clear E end
+  | |- lands (bind (FrameLoop_SetAsOldest dext ?fl) ?k ?w) _ =>
+      lazymatch goal with H : fl_on fl ?lo ?n |- _ =>
+        let fl' := fresh "fl" in let r := fresh "r" in let E := fresh "E" in let H' := fresh "Hon" in let R := fresh "Rg" in
+        destruct (SetAsOldest_all fl lo n w H) as (fl' & r & E & H' & R); rewrite (bind_ok _ k w _ _ E); clear E end
+  | |- lands (bind (FrameLoop_Reset dext ?fl) ?k ?w) _ =>
+      lazymatch goal with H : fl_on fl ?lo ?n |- _ =>
+        let fl' := fresh "fl" in let E := fresh "E" in let H' := fresh "Hon" in let R := fresh "Rg" in
+        destruct (Reset_all fl lo n w H) as (fl' & E & H' & R); rewrite (bind_ok _ k w _ _ E); clear E end
+  | |- lands ((if ?b then _ else _) _) _ => decide_cond norm b
+  | |- lands (bind (if ?b then _ else _) _ _) _ => decide_cond norm b
+  end;
+  head_simpl.
+
+(* ====================================================================================
    pixelsChanged
    ==================================================================================== *)
 Section Pix.
@@ -389,11 +535,10 @@ Section Pix.
     rewrite Ei. reflexivity.
   Qed.
 
-  Lemma pixelsChanged_ok d w s f pf :
+  Lemma pixelsChanged_lands d w s f pf :
     sim c d w s -> dframe w (H_IN c) = f -> gbound (f_pix f) -> s_affected s = affected_by_ffc f ->
-    exists d' w' n,
-      motionDetector_pixelsChanged dext d (H_IN c) pf w = Ok (d', (snd (pix_step c s f pf), n)) w' /\
-      sim c d' w' (fst (pix_step c s f pf)).
+    lands (motionDetector_pixelsChanged dext d (H_IN c) pf w)
+      (fun r w' => fst (snd r) = snd (pix_step c s f pf) /\ sim c (fst r) w' (fst (pix_step c s f pf))).
   Proof.
     intros S Ein Bf Eaff.
     pose proof (sm_conf _ _ _ _ S) as Hc. pose proof (sm_fl _ _ _ _ S) as HF. pose proof (sm_df _ _ _ _ S) as HD.
@@ -434,15 +579,16 @@ Section Pix.
     assert (Efl3 : mring (dframe w3) (motionDetector_flooredFrames d) = put (s_floored s) f).
     { rewrite Efl1. apply (mring_same _ _ _ 0 (d_gap c + 1)); [exact HF|]. intros h Hh. apply W3same; subst hd; lia. }
     (* whatever the detector's scalars become, the relation holds in the world w3 *)
-    assert (Hsim : forall d' b rF rD,
+    assert (Hsim : forall d' b a rF rD,
+      a = s_affected s ->
       dconf c d' -> fl_on (motionDetector_flooredFrames d') 0 (d_gap c + 1) ->
       mring (dframe w3) (motionDetector_flooredFrames d') = rF ->
       fl_on (motionDetector_diffFrames d') (d_gap c + 1) 2 ->
       mring (pixof w3) (motionDetector_diffFrames d') = rD ->
       motionDetector_firstDiff d' = b -> motionDetector_affectedByFCC d' = s_affected s ->
       motionDetector_tempThresh d' = s_thresh s -> motionDetector_backgroundFrames d' = s_bgframes s ->
-      sim c d' w3 (mkDS rF rD b (s_affected s) (s_thresh s) (s_bg s) (s_wts s) (s_bgframes s))).
-    { intros d' b rF rD Hc' HF' EF' HD' ED' Eb Ea Et En.
+      sim c d' w3 (mkDS rF rD b a (s_thresh s) (s_bg s) (s_wts s) (s_bgframes s))).
+    { intros d' b a rF rD -> Hc' HF' EF' HD' ED' Eb Ea Et En.
       split; cbn [s_floored s_diffs s_firstdiff s_affected s_thresh s_bg s_wts s_bgframes]; try (symmetry; assumption); try assumption.
       - unfold w3, w2, set_pix, set_frame. cbn [dw_frames]. rewrite !length_lupd. exact Hlen.
       - unfold pixof, H_BG. rewrite W3same by (subst hd; lia). rewrite W2same by (subst hc; lia). apply (sm_bg _ _ _ _ S).
@@ -457,21 +603,16 @@ Section Pix.
       - apply (sm_bg_dims _ _ _ _ S).
       - apply (sm_wts_dims _ _ _ _ S).
       - apply (sm_wts_er _ _ _ _ S). }
-    (* ---- the code ---- *)
-    unfold motionDetector_pixelsChanged.
-    rewrite (bind_ok _ _ _ _ _ (tie_Current dext (motionDetector_flooredFrames d) w 0 (proj1 HF))).
-    cbv beta iota zeta. rewrite set_floored_id. rewrite (fl_current _ 0 (d_gap c + 1) 0 HF). fold hc.
-    unfold motionDetector_setFloor. rewrite bind_assoc, c_copy. cbv beta. rewrite bind_ret. cbv beta iota zeta.
-    rewrite Ein. fold w2.
-    rewrite (bind_ok _ _ _ _ _ (tie_Oldest dext (motionDetector_flooredFrames d) w2 0 (proj1 HF))).
-    cbv beta iota zeta. rewrite set_floored_id. rewrite (fl_oldest _ 0 (d_gap c + 1) 0 HF). fold ho.
-    rewrite (bind_ok _ _ _ _ _ (tie_Current dext (motionDetector_diffFrames d) w2 0 (proj1 HD))).
-    cbv beta iota zeta. rewrite set_diff_id. rewrite (fl_current _ (d_gap c + 1) 2 0 HD). fold hd.
-    conf Hc. rewrite if_bind.
-    assert (Ediff : (if d_warmer c then motionDetector_warmerDiffFrames dext d hc ho hd
-                     else motionDetector_absDiffFrames dext d hc ho hd) w2 = Ok (d, hd) w3).
-    { rewrite diffFrames_ok; try assumption.
-      - unfold w3, dg. rewrite (sm_thresh _ _ _ _ S). unfold pixof. rewrite W2hc. reflexivity.
+    (* the frame handed in, in every world the code passes through *)
+    assert (Ein2 : dframe w2 (d_gap c + 4) = f) by (rewrite W2same by (subst hc; lia); exact Ein).
+    (* the difference frame, whichever of the two functions is configured and whatever the detector's
+       other fields are by then *)
+    assert (Ediff : forall dd, dconf c dd -> motionDetector_tempThresh dd = s_thresh s ->
+      (if d_warmer c then motionDetector_warmerDiffFrames dext dd hc ho hd
+       else motionDetector_absDiffFrames dext dd hc ho hd) w2 = Ok (dd, hd) w3).
+    { intros dd Hcd Etd. rewrite diffFrames_ok; try assumption.
+      - unfold w3, dg. rewrite Etd. unfold pixof. rewrite W2hc. reflexivity.
+      - rewrite Etd. apply (sm_thresh_ok _ _ _ _ S).
       - apply Hin2. subst hd; lia.
       - subst hc; lia.
       - subst ho; lia.
@@ -482,71 +623,62 @@ Section Pix.
       - unfold pixof. rewrite W2hc. exact Bf.
       - unfold pixof. destruct (Z.eq_dec ho hc) as [E|N]; [rewrite E, W2hc; exact Bf|].
         rewrite W2same by (exact N || (subst ho; lia)). apply (sm_fl_ok _ _ _ _ S). subst ho; lia. }
-    rewrite (bind_ok _ _ _ _ _ Ediff). cbv beta iota zeta.
-    destruct (Move_on (pixof w3) (motionDetector_diffFrames d) (d_gap c + 1) 2 w3 HD) as (D' & EM & HD' & ERD).
-    rewrite (bind_ok _ _ _ _ _ EM). cbv beta iota zeta.
-    rewrite <- Edf1 in ERD.
-    pose proof (mring_current (pixof w3) D' (d_gap c + 1) 2 (zero_grid c) HD') as Eprev. rewrite ERD in Eprev.
-    pose proof (fl_on_cur _ _ _ HD') as Hpcur.
-    md_simpl. rewrite (sm_first _ _ _ _ S).
-    unfold pix_step. cbv zeta. fold dg. rewrite Ecmp. fold dg.
-    destruct (s_firstdiff s) eqn:Efd; cbn [negb].
-    - (* a previous diff exists *)
-      rewrite (bind_ok _ _ _ _ _ (isAffectedByFFC_ok _ w3)). cbv beta iota zeta. rewrite Ein3, <- Eaff.
-      destruct (s_affected s || pf) eqn:Eor.
-      + (* FFC: restart the comparison *)
-        call1.
-        destruct (SetAsOldest_on (dframe w3) (motionDetector_flooredFrames d) 0 (d_gap c + 1) w3 HF) as (Fs & r & ES & HFs & ERs).
-        rewrite (bind_ok _ _ _ _ _ ES). cbv beta iota zeta. md_simpl.
-        destruct (Move_on (dframe w3) Fs 0 (d_gap c + 1) w3 HFs) as (F' & EM2 & HF' & ERF).
-        rewrite (bind_ok _ _ _ _ _ EM2). cbv beta iota zeta.
-        do 3 eexists. split; [reflexivity|]. cbn [fst].
-        apply Hsim; md_simpl; try reflexivity; try assumption.
-        * destruct Hc; split; first [reflexivity | assumption | (symmetry; assumption)].
-        * rewrite ERF, ERs, Efl3. reflexivity.
-        * apply (sm_aff _ _ _ _ S).
-        * apply (sm_thresh _ _ _ _ S).
-        * apply (sm_bgframes _ _ _ _ S).
-      + conf Hc.
-        destruct (d_one c) eqn:Eone.
-        * match goal with |- context [motionDetector_hasMotion dext ?dd _ _] =>
-            assert (Hc' : dconf c dd) by (destruct Hc; split; first [reflexivity | assumption | (symmetry; assumption)]);
-            destruct (hasMotion_ok c dd Hc' Hcfg w3 hd (-1)) as (nn & EH) end.
-          rewrite (bind_ok _ _ _ _ _ EH). cbv beta iota zeta. md_simpl.
-          destruct (Move_on (dframe w3) (motionDetector_flooredFrames d) 0 (d_gap c + 1) w3 HF) as (F' & EM2 & HF' & ERF).
-          rewrite (bind_ok _ _ _ _ _ EM2). cbv beta iota zeta.
-          do 3 eexists. split.
-          { cbn [snd]. rewrite W3hd. rewrite (has_motion_one c dg _ (current (zero_grid c) (move (put (s_diffs s) dg))) Eone). reflexivity. }
-          cbn [fst]. apply Hsim; md_simpl; try reflexivity; try assumption.
-          -- destruct Hc; split; first [reflexivity | assumption | (symmetry; assumption)].
-          -- rewrite ERF, Efl3. reflexivity.
-          -- apply (sm_aff _ _ _ _ S).
-          -- apply (sm_thresh _ _ _ _ S).
-          -- apply (sm_bgframes _ _ _ _ S).
-        * match goal with |- context [motionDetector_hasMotion dext ?dd _ _] =>
-            assert (Hc' : dconf c dd) by (destruct Hc; split; first [reflexivity | assumption | (symmetry; assumption)]);
-            destruct (hasMotion_ok c dd Hc' Hcfg w3 hd (d_gap c + 1 + FrameLoop_currentIndex D')) as (nn & EH) end.
-          rewrite (bind_ok _ _ _ _ _ EH). cbv beta iota zeta. md_simpl.
-          destruct (Move_on (dframe w3) (motionDetector_flooredFrames d) 0 (d_gap c + 1) w3 HF) as (F' & EM2 & HF' & ERF).
-          rewrite (bind_ok _ _ _ _ _ EM2). cbv beta iota zeta.
-          do 3 eexists. split.
-          { cbn [snd]. rewrite W3hd, Eprev. reflexivity. }
-          cbn [fst]. apply Hsim; md_simpl; try reflexivity; try assumption.
-          -- destruct Hc; split; first [reflexivity | assumption | (symmetry; assumption)].
-          -- rewrite ERF, Efl3. reflexivity.
-          -- apply (sm_aff _ _ _ _ S).
-          -- apply (sm_thresh _ _ _ _ S).
-          -- apply (sm_bgframes _ _ _ _ S).
-    - (* the first diff after a restart *)
-      destruct (Move_on (dframe w3) (motionDetector_flooredFrames d) 0 (d_gap c + 1) w3 HF) as (F' & EM2 & HF' & ERF).
-      rewrite (bind_ok _ _ _ _ _ EM2). cbv beta iota zeta.
-      do 3 eexists. split; [reflexivity|]. cbn [fst].
-      apply Hsim; md_simpl; try reflexivity; try assumption.
-      + destruct Hc; split; first [reflexivity | assumption | (symmetry; assumption)].
-      + rewrite ERF, Efl3. reflexivity.
-      + apply (sm_aff _ _ _ _ S).
-      + apply (sm_thresh _ _ _ _ S).
-      + apply (sm_bgframes _ _ _ _ S).
+    (* ---- the code, in whatever order it comes ---- *)
+    (* conditions in the model's vocabulary; handles and worlds at their names *)
+    Ltac pc_norm Hc S E := conf_in Hc E; rewrite ?(sm_first _ _ _ _ S), ?(sm_aff _ _ _ _ S) in E.
+    Ltac pc_fold Ein Ein2 Ein3 Eaff hc ho hd w2 :=
+      rewrite ?Ein, ?Ein2, ?Ein3, <- ?Eaff; fold hc ho hd; fold w2.
+    (* the functions of the detector itself: both difference loops, hasMotion *)
+    Ltac pc_own c Hc Hcfg S Ediff :=
+      lazymatch goal with
+      | |- lands (bind (motionDetector_warmerDiffFrames dext ?dd _ _ _) ?k ?w) _ =>
+          lazymatch goal with Ew : d_warmer c = true |- _ =>
+            let E := fresh "E" in
+            assert (E := Ediff dd ltac:(dconf_solve Hc) ltac:(md_norm; apply (sm_thresh _ _ _ _ S)));
+            rewrite ?Ew in E; cbv iota in E; rewrite (bind_ok _ k w _ _ E); clear E end
+      | |- lands (bind (motionDetector_absDiffFrames dext ?dd _ _ _) ?k ?w) _ =>
+          lazymatch goal with Ew : d_warmer c = false |- _ =>
+            let E := fresh "E" in
+            assert (E := Ediff dd ltac:(dconf_solve Hc) ltac:(md_norm; apply (sm_thresh _ _ _ _ S)));
+            rewrite ?Ew in E; cbv iota in E; rewrite (bind_ok _ k w _ _ E); clear E end
+      | |- lands (bind (motionDetector_hasMotion dext ?dd ?a ?b) ?k ?w) _ =>
+          let Hc' := fresh "Hcd" in let nn := fresh "nn" in let EH := fresh "EH" in
+          assert (Hc' : dconf c dd) by dconf_solve Hc;
+          destruct (hasMotion_ok c dd Hc' Hcfg w a b) as (nn & EH);
+          rewrite (bind_ok _ k w _ _ EH); clear EH
+      end;
+      head_simpl.
+    unfold motionDetector_pixelsChanged, pix_step. cbv zeta. fold dg. rewrite Ecmp. fold dg.
+    head_simpl. pc_fold Ein Ein2 Ein3 Eaff hc ho hd w2.
+    repeat (first [ pc_own c Hc Hcfg S Ediff | step_generic ltac:(fun E => pc_norm Hc S E) ];
+            pc_fold Ein Ein2 Ein3 Eaff hc ho hd w2).
+    (* ---- the result: the verdict, then the state field by field ---- *)
+    all: apply lands_ret; cbn [fst snd]; split.
+    (* the verdict *)
+    all: try (rewrite ?W3hd;
+      try match goal with
+          | Hon : fl_on ?D' ?lo ?n |- context [pixof ?ww (?lo + FrameLoop_currentIndex ?D')] =>
+            rewrite <- (mring_current (pixof ww) D' lo n (zero_grid c) Hon)
+          end;
+      ring_facts; rewrite <- ?Edf1;
+      first [ reflexivity | unfold has_motion; use_bool_eqns; reflexivity ]).
+    (* the state *)
+    all: apply Hsim; md_norm;
+      first [ assumption | reflexivity | (symmetry; assumption) | dconf_solve Hc
+            | rewrite ?(sm_first _ _ _ _ S), ?(sm_aff _ _ _ _ S), ?(sm_thresh _ _ _ _ S), ?(sm_bgframes _ _ _ _ S);
+              first [ assumption | reflexivity | (symmetry; assumption) ]
+            | ring_facts; rewrite ?Efl3, <- ?Edf1; reflexivity ].
+  Qed.
+
+  Lemma pixelsChanged_ok d w s f pf :
+    sim c d w s -> dframe w (H_IN c) = f -> gbound (f_pix f) -> s_affected s = affected_by_ffc f ->
+    exists d' w' n,
+      motionDetector_pixelsChanged dext d (H_IN c) pf w = Ok (d', (snd (pix_step c s f pf), n)) w' /\
+      sim c d' w' (fst (pix_step c s f pf)).
+  Proof.
+    intros S Ein Bf Eaff.
+    destruct (pixelsChanged_lands d w s f pf S Ein Bf Eaff) as ([d' [m n]] & w' & E & Em & S').
+    cbn [fst snd] in Em, S'. exists d', w', n. rewrite E, Em. split; [reflexivity | exact S'].
   Qed.
 End Pix.
 
@@ -641,120 +773,119 @@ Section Detect.
     { intros h Hh. apply dframe_set_frame_neq; unfold H_IN; lia. }
     assert (Hl1 : Z.of_nat (List.length (dw_frames w1)) = d_gap c + 5).
     { unfold w1, set_frame. cbn [dw_frames]. rewrite length_lupd. exact Hlen. }
-    rewrite detect_split.
-    (* what remains from the call of pixelsChanged on *)
-    assert (Tail : forall dY v wY (K : motionDetector * (bool * Z) -> M dworld (motionDetector * bool)),
-      sim c dY wY (pre_state c s f) -> dframe wY (H_IN c) = f ->
-      (forall d' m n w', K (d', (m, n)) w' = Ok (d', m) w') ->
-      exists d' w', bind (motionDetector_pixelsChanged dext (motionDetector_set_count v dY)
-                            (H_IN c) (s_affected s)) K wY
-                    = Ok (d', snd (pix_step c (pre_state c s f) f (s_affected s))) w' /\
-                    sim c d' w' (fst (pix_step c (pre_state c s f) f (s_affected s)))).
-    { intros dY v wY K SY EY HK.
-      destruct (pixelsChanged_ok c Hcfg Hgap _ wY _ f (s_affected s) (sim_set_count _ _ _ _ v SY) EY Bf)
-        as (d' & w' & n & E & S').
-      { unfold pre_state. destruct (d_dynamic c && negb (affected_by_ffc f)); reflexivity. }
-      exists d', w'. split; [|exact S']. rewrite (bind_ok _ _ _ _ _ E). apply HK. }
-    unfold motionDetector_Detect.
-    rewrite (bind_ok _ _ _ _ _ (isAffectedByFFC_ok _ w1)). rewrite Ein1. cbv beta iota zeta.
-    rewrite (sm_aff _ _ _ _ S).
     assert (Ebg1 : pixof w1 (H_BG c) = s_bg s).
     { unfold pixof. rewrite W1same by (unfold H_BG; lia). apply (sm_bg _ _ _ _ S). }
     assert (Ewt1 : dw_wts w1 = s_wts s) by apply (sm_wts _ _ _ _ S).
-    (* the continuation after pixelsChanged only logs *)
-    Ltac after_pix := intros ? m ? ?; destruct m; calls; cbn [z_to_bool Z.eqb negb]; rewrite ?bind_ret; reflexivity.
-    md_simpl_goal. conf Hc.
-    destruct (d_dynamic c && negb (affected_by_ffc f)) eqn:Edyn.
-    - (* the background and the threshold are updated first *)
-      match goal with |- context [bind (motionDetector_updateBackground dext ?d1 ?nf ?p) _ ?ww] =>
-        assert (Hc1 : dconf c d1) by (destruct Hc; split; first [reflexivity | assumption | (symmetry; assumption)]);
-        destruct (updateBackground_ok c d1 ww nf p s f Hcfg Hc1) as [EU ErU]
-      end.
-      { apply Hin1. unfold H_BG; lia. }
-      { unfold H_IN; lia. }
-      { unfold H_IN, H_BG; lia. }
-      { rewrite Ebg1. apply (sm_bg_dims _ _ _ _ S). }
-      { unfold pixof. rewrite Ein1. exact Df. }
-      { rewrite Ewt1. apply (sm_wts_dims _ _ _ _ S). }
-      { rewrite Ewt1. apply (sm_wts_er _ _ _ _ S). }
-      { symmetry; exact Ebg1. }
-      { symmetry; exact Ewt1. }
-      { unfold pixof. rewrite Ein1. reflexivity. }
-      { symmetry. apply (sm_bgframes _ _ _ _ S). }
-      { apply Hbnd. reflexivity. }
-      rewrite (bind_ok _ _ _ _ _ EU). cbv beta iota zeta. md_simpl_goal. conf Hc.
-      rewrite (sm_bgframes _ _ _ _ S), Z.gtb_ltb.
-      set (ub := update_background c s f (s_affected s)) in *.
-      set (w2 := set_wts (set_pix w1 (H_BG c) (fst (fst (fst ub)))) (snd (fst (fst ub)))).
-      assert (W2same : forall h, 0 <= h < d_gap c + 5 -> h <> H_BG c -> dframe w2 h = dframe w1 h).
-      { intros h Hh N. unfold w2. rewrite dframe_set_wts. apply dframe_set_pix_neq; unfold H_BG in *; lia. }
-      assert (Hl2 : Z.of_nat (List.length (dw_frames w2)) = d_gap c + 5).
-      { unfold w2, set_wts, set_pix, set_frame. cbn [dw_frames]. rewrite length_lupd. exact Hl1. }
-      assert (Ebg2 : pixof w2 (H_BG c) = fst (fst (fst ub))).
-      { unfold w2. rewrite pixof_set_wts. apply pixof_set_pix_eq. apply Hin1. unfold H_BG; lia. }
-      assert (Ein2 : dframe w2 (H_IN c) = f).
-      { rewrite W2same by (unfold H_IN, H_BG; lia). exact Ein1. }
-      pose proof (ub_wts_ok c s f (s_affected s) (sm_wts_dims _ _ _ _ S) (sm_wts_er _ _ _ _ S)) as [Dw2 Erw2].
-      pose proof (ub_bg_dims c s f (s_affected s)) as Dbg2.
-      fold ub in Dw2, Erw2, Dbg2.
-      assert (Epre : pre_state c s f =
+    (* the model's background update and the world after it (used when the threshold is dynamic) *)
+    set (ub := update_background c s f (s_affected s)).
+    set (w2 := set_wts (set_pix w1 (H_BG c) (fst (fst (fst ub)))) (snd (fst (fst ub)))).
+    assert (W2same : forall h, 0 <= h < d_gap c + 5 -> h <> H_BG c -> dframe w2 h = dframe w1 h).
+    { intros h Hh N. unfold w2. rewrite dframe_set_wts. apply dframe_set_pix_neq; unfold H_BG in *; lia. }
+    assert (Hl2 : Z.of_nat (List.length (dw_frames w2)) = d_gap c + 5).
+    { unfold w2, set_wts, set_pix, set_frame. cbn [dw_frames]. rewrite length_lupd. exact Hl1. }
+    assert (Ebg2 : pixof w2 (H_BG c) = fst (fst (fst ub))).
+    { unfold w2. rewrite pixof_set_wts. apply pixof_set_pix_eq. apply Hin1. unfold H_BG; lia. }
+    assert (Ein2 : dframe w2 (H_IN c) = f).
+    { rewrite W2same by (unfold H_IN, H_BG; lia). exact Ein1. }
+    pose proof (ub_wts_ok c s f (s_affected s) (sm_wts_dims _ _ _ _ S) (sm_wts_er _ _ _ _ S)) as [Dw2 Erw2].
+    pose proof (ub_bg_dims c s f (s_affected s)) as Dbg2.
+    fold ub in Dw2, Erw2, Dbg2.
+    (* the model's state between the two halves of Detect *)
+    assert (Epre : pre_state c s f =
+      if d_dynamic c && negb (affected_by_ffc f) then
         mkDS (s_floored s) (s_diffs s) (s_firstdiff s) (affected_by_ffc f)
              (if snd ub && (d_preview c <? s_bgframes s + 1) then calc_threshold c (snd (fst ub)) else s_thresh s)
-             (fst (fst (fst ub))) (snd (fst (fst ub))) (s_bgframes s + 1)).
-      { unfold pre_state. rewrite Edyn. reflexivity. }
-      assert (Hsim2 : forall dY,
-        dconf c dY -> motionDetector_flooredFrames dY = motionDetector_flooredFrames d ->
-        motionDetector_diffFrames dY = motionDetector_diffFrames d ->
-        motionDetector_firstDiff dY = motionDetector_firstDiff d ->
-        motionDetector_affectedByFCC dY = affected_by_ffc f ->
-        motionDetector_tempThresh dY = s_thresh (pre_state c s f) ->
-        motionDetector_backgroundFrames dY = s_bgframes s + 1 ->
-        sim c dY w2 (pre_state c s f)).
-      { intros dY HcY EF ED E1 E2 E3 E4. apply (sim_transfer c d w s); try assumption.
-        - intros h Hh. rewrite W2same by (unfold H_BG; lia). apply W1same. lia.
-        - rewrite Epre. reflexivity.
-        - rewrite Epre. reflexivity.
-        - rewrite Epre. cbn [s_firstdiff]. rewrite E1. apply (sm_first _ _ _ _ S).
-        - rewrite Epre. exact E2.
-        - rewrite Epre. exact E4.
-        - rewrite Epre. exact Ebg2.
-        - rewrite Epre. reflexivity.
-        - rewrite Epre. exact Dbg2.
-        - rewrite Epre. exact Dw2.
-        - rewrite Epre. exact Erw2. }
-      destruct (snd ub && (d_preview c <? s_bgframes s + 1)) eqn:Ecalc.
-      + match goal with |- context [bind (motionDetector_calculateThreshold dext ?d2 _) _ _] =>
-          assert (Hc2 : dconf c d2) by (destruct Hc; split; first [reflexivity | assumption | (symmetry; assumption)]);
-          rewrite (bind_ok _ _ _ _ _ (calculateThreshold_ok c d2 (snd (fst ub)) w2 Hc2 ErU))
-        end.
-        cbv beta iota zeta. call1.
-        apply Tail; [| exact Ein2 | after_pix].
-        apply Hsim2; try reflexivity.
-        * destruct Hc; split; first [reflexivity | assumption | (symmetry; assumption)].
-        * rewrite Epre. cbn [s_thresh]. rewrite ?Ecalc. reflexivity.
-      + call1.
-        apply Tail; [| exact Ein2 | after_pix].
-        apply Hsim2; try reflexivity.
-        * destruct Hc; split; first [reflexivity | assumption | (symmetry; assumption)].
-        * rewrite Epre. cbn [s_thresh]. rewrite ?Ecalc. apply (sm_thresh _ _ _ _ S).
-    - apply Tail; [| exact Ein1 | after_pix].
-      assert (Epre : pre_state c s f =
-        mkDS (s_floored s) (s_diffs s) (s_firstdiff s) (affected_by_ffc f) (s_thresh s) (s_bg s) (s_wts s) (s_bgframes s)).
-      { unfold pre_state. rewrite Edyn. reflexivity. }
-      apply (sim_transfer c d w s); try assumption; try reflexivity.
-      + destruct Hc; split; first [reflexivity | assumption | (symmetry; assumption)].
-      + intros h Hh. apply W1same. lia.
-      + rewrite Epre. reflexivity.
-      + rewrite Epre. reflexivity.
-      + rewrite Epre. apply (sm_first _ _ _ _ S).
-      + rewrite Epre. reflexivity.
-      + rewrite Epre. apply (sm_thresh _ _ _ _ S).
-      + rewrite Epre. apply (sm_bgframes _ _ _ _ S).
-      + rewrite Epre. exact Ebg1.
-      + rewrite Epre. exact Ewt1.
-      + rewrite Epre. apply (sm_bg_dims _ _ _ _ S).
-      + rewrite Epre. apply (sm_wts_dims _ _ _ _ S).
-      + rewrite Epre. apply (sm_wts_er _ _ _ _ S).
+             (fst (fst (fst ub))) (snd (fst (fst ub))) (s_bgframes s + 1)
+      else mkDS (s_floored s) (s_diffs s) (s_firstdiff s) (affected_by_ffc f) (s_thresh s) (s_bg s) (s_wts s) (s_bgframes s))
+      by reflexivity.
+    assert (EaffPre : s_affected (pre_state c s f) = affected_by_ffc f).
+    { rewrite Epre. destruct (d_dynamic c && negb (affected_by_ffc f)); reflexivity. }
+    (* whatever the detector's scalars are when pixelsChanged is called, the relation holds: in the world
+       w2 when the background was updated, in w1 when not *)
+    assert (SimPre : forall dY wY,
+      (wY = w2 /\ d_dynamic c && negb (affected_by_ffc f) = true) \/
+      (wY = w1 /\ d_dynamic c && negb (affected_by_ffc f) = false) ->
+      dconf c dY -> motionDetector_flooredFrames dY = motionDetector_flooredFrames d ->
+      motionDetector_diffFrames dY = motionDetector_diffFrames d ->
+      motionDetector_firstDiff dY = motionDetector_firstDiff d ->
+      motionDetector_affectedByFCC dY = affected_by_ffc f ->
+      motionDetector_tempThresh dY = s_thresh (pre_state c s f) ->
+      motionDetector_backgroundFrames dY = s_bgframes (pre_state c s f) ->
+      sim c dY wY (pre_state c s f)).
+    { intros dY wY [[-> Edyn]|[-> Edyn]] HcY EF ED E1 E2 E3 E4;
+        apply (sim_transfer c d w s); try assumption;
+        try (rewrite Epre, Edyn; cbn [s_floored s_diffs s_firstdiff s_affected s_thresh s_bg s_wts s_bgframes]).
+      all: first [ reflexivity | assumption | apply S
+                 | rewrite E1; apply (sm_first _ _ _ _ S)
+                 | exact Ebg2 | exact Dbg2 | exact Dw2 | exact Erw2 | exact Ebg1 | exact Ewt1
+                 | intros h Hh; rewrite W2same by (unfold H_BG; lia); apply W1same; lia
+                 | intros h Hh; apply W1same; lia ]. }
+    rewrite detect_split.
+    cut (lands (motionDetector_Detect dext d (H_IN c) w1)
+           (fun r w' => snd r = snd (pix_step c (pre_state c s f) f (s_affected s)) /\
+                        sim c (fst r) w' (fst (pix_step c (pre_state c s f) f (s_affected s))))).
+    { intros ([d' m] & w' & E & Em & S'). cbn [fst snd] in Em, S'. exists d', w'. rewrite E, Em.
+      split; [reflexivity | exact S']. }
+    (* ---- the code, in whatever order it comes ---- *)
+    Ltac dt_norm Hc S E :=
+      conf_in Hc E; rewrite ?(sm_bgframes _ _ _ _ S), ?Z.gtb_ltb, ?Z.geb_leb in E; cbv beta delta [z_to_bool] in E; cbn [Z.eqb negb] in E.
+    Ltac dt_fold S Ein1 Ein2 ub w2 := rewrite ?(sm_aff _ _ _ _ S), ?Ein1, ?Ein2; fold ub; fold w2.
+    Ltac dt_own c s f Hcfg Hgap Hc S Df Bf Hbnd Hin1 Ein1 Ein2 Ebg1 Ewt1 Epre EaffPre SimPre ub w2 :=
+      lazymatch goal with
+      | |- lands (bind (motionDetector_updateBackground dext ?d1 ?nf ?p) ?k ?ww) _ =>
+          let Hc1 := fresh "Hc1" in let EU := fresh "EU" in let ErU := fresh "ErU" in
+          assert (Hc1 : dconf c d1) by dconf_solve Hc;
+          destruct (updateBackground_ok c d1 ww nf p s f Hcfg Hc1) as [EU ErU];
+          [ apply Hin1; unfold H_BG; lia
+          | unfold H_IN; lia
+          | unfold H_IN, H_BG; lia
+          | rewrite Ebg1; apply (sm_bg_dims _ _ _ _ S)
+          | unfold pixof; rewrite Ein1; exact Df
+          | rewrite Ewt1; apply (sm_wts_dims _ _ _ _ S)
+          | rewrite Ewt1; apply (sm_wts_er _ _ _ _ S)
+          | symmetry; exact Ebg1
+          | symmetry; exact Ewt1
+          | unfold pixof; rewrite Ein1; reflexivity
+          | md_norm; symmetry; apply (sm_bgframes _ _ _ _ S)
+          | apply Hbnd; bool_simpl; reflexivity
+          | rewrite (bind_ok _ k ww _ _ EU); clear EU; fold ub in ErU ]
+      | |- lands (bind (motionDetector_calculateThreshold dext ?d2 (fenc ?avg)) ?k ?ww) _ =>
+          lazymatch goal with Er : erange avg |- _ =>
+            let Hc2 := fresh "Hc2" in
+            assert (Hc2 : dconf c d2) by dconf_solve Hc;
+            rewrite (bind_ok _ k ww _ _ (calculateThreshold_ok c d2 avg ww Hc2 Er)) end
+      | |- lands (bind (motionDetector_pixelsChanged dext ?dY ?h ?p) ?K ?wY) _ =>
+          let SY := fresh "SY" in let EY := fresh "EY" in
+          assert (EY : dframe wY (H_IN c) = f) by first [exact Ein1 | exact Ein2];
+          assert (SY : sim c dY wY (pre_state c s f));
+          [ apply SimPre; md_norm;
+            first [ reflexivity | dconf_solve Hc
+                  | left; split; [reflexivity | bool_simpl; reflexivity]
+                  | right; split; [reflexivity | bool_simpl; reflexivity]
+                  | rewrite Epre; bool_simpl; cbv iota; cbn [s_thresh s_bgframes];
+                    rewrite ?(sm_thresh _ _ _ _ S), ?(sm_bgframes _ _ _ _ S); reflexivity ]
+          | let dP := fresh "dP" in let mP := fresh "mP" in let nP := fresh "nP" in let wP := fresh "wP" in
+            let EP := fresh "EP" in let EmP := fresh "EmP" in let SP := fresh "SP" in
+            let EA := fresh "EA" in
+            assert (EA : s_affected (pre_state c s f) = affected_by_ffc f)
+              by first [ exact EaffPre | rewrite EaffPre; bool_simpl; reflexivity ];
+            destruct (pixelsChanged_lands c Hcfg Hgap dY wY _ f p SY EY Bf EA)
+              as ([dP [mP nP]] & wP & EP & EmP & SP);
+            cbn [fst snd] in EmP, SP; rewrite (bind_ok _ K wY _ _ EP); clear EP ]
+      end;
+      head_simpl.
+    unfold motionDetector_Detect. head_simpl. dt_fold S Ein1 Ein2 ub w2.
+    repeat (first [ dt_own c s f Hcfg Hgap Hc S Df Bf Hbnd Hin1 Ein1 Ein2 Ebg1 Ewt1 Epre EaffPre SimPre ub w2
+                  | step_generic ltac:(fun E => dt_norm Hc S E) ];
+            dt_fold S Ein1 Ein2 ub w2).
+    (* ---- the result: the verdict of pixelsChanged, and its state up to fields the relation ignores ---- *)
+    all: apply lands_ret; cbn [fst snd]; split; [ assumption | ].
+    all: first [ assumption
+               | match goal with
+                 | SP : sim c ?dP ?wP ?sP |- sim c _ ?wP ?sP =>
+                   apply (sim_transfer c dP wP sP); try exact SP; md_norm;
+                   first [ reflexivity | apply SP | dconf_solve (sm_conf _ _ _ _ SP) | (intros; reflexivity) ]
+                 end ].
   Qed.
 End Detect.
 
@@ -763,17 +894,16 @@ Lemma Reset_ok c d w s : sim c d w s ->
 Proof.
   intros S. pose proof (sm_conf _ _ _ _ S) as Hc.
   pose proof (sm_fl _ _ _ _ S) as HF. pose proof (sm_df _ _ _ _ S) as HD.
-  unfold motionDetector_Reset. cbv zeta. md_simpl.
-  destruct (Reset_on (dframe w) (motionDetector_flooredFrames d) 0 (d_gap c + 1) w HF) as (F' & E1 & HF' & ER1).
-  rewrite (bind_ok _ _ _ _ _ E1). cbv beta iota zeta. md_simpl.
-  destruct (Reset_on (pixof w) (motionDetector_diffFrames d) (d_gap c + 1) 2 w HD) as (D' & E2 & HD' & ER2).
-  rewrite (bind_ok _ _ _ _ _ E2). cbv beta iota zeta. md_simpl.
-  eexists. split; [reflexivity|].
-  unfold dreset. split; md_simpl; cbn [s_floored s_diffs s_firstdiff s_affected s_thresh s_bg s_wts s_bgframes];
-    try assumption; try reflexivity; try apply S.
-  - destruct Hc; split; first [reflexivity | assumption | (symmetry; assumption)].
-  - rewrite ER1, (sm_fl_ring _ _ _ _ S). reflexivity.
-  - rewrite ER2, (sm_df_ring _ _ _ _ S). reflexivity.
+  cut (lands (motionDetector_Reset dext d w) (fun r w' => w' = w /\ sim c (fst r) w (dreset s))).
+  { intros ([d' []] & w' & E & -> & S'). exists d'. split; [exact E | exact S']. }
+  unfold motionDetector_Reset. head_simpl.
+  repeat step_generic ltac:(fun E => idtac).
+  apply lands_ret. cbn [fst snd]. split; [reflexivity|].
+  (* field by field *)
+  unfold dreset.
+  split; md_norm; cbn [s_floored s_diffs s_firstdiff s_affected s_thresh s_bg s_wts s_bgframes];
+    first [ assumption | reflexivity | apply S | dconf_solve Hc
+          | ring_facts; rewrite ?(sm_fl_ring _ _ _ _ S), ?(sm_df_ring _ _ _ _ S); reflexivity ].
 Qed.
 
 (* ---------- the initial state ---------- *)
